@@ -925,7 +925,7 @@ func (s *sim) c11Observe(consumer string, tracks map[viewKey]*viewTrack, v *tmco
 
 func c11Oracle(s *sim, op Op, idx int) {
 	if s.c11 == nil {
-		s.c11 = &c11State{gs: map[viewKey]*viewTrack{}, sm: map[viewKey]*viewTrack{}}
+		s.c11 = &c11State{gs: map[viewKey]*viewTrack{}, sm: map[viewKey]*viewTrack{}, byVersion: map[string]string{}}
 	}
 	st := s.c11
 	if op.K == "restart" || op.K == "start" {
@@ -933,6 +933,7 @@ func c11Oracle(s *sim, op Op, idx int) {
 		st.gs, st.sm = map[viewKey]*viewTrack{}, map[viewKey]*viewTrack{}
 		st.gsSeen, st.smSeen = s.incStartGS, s.incStartSM
 		st.nilVoted, st.pendingNil, st.prevVoting = nil, nil, viewKey{}
+		st.byVersion = map[string]string{}
 	}
 	for ; st.gsSeen < len(s.gsRecv); st.gsSeen++ {
 		u := s.gsRecv[st.gsSeen].U
@@ -976,17 +977,37 @@ func c11Oracle(s *sim, op Op, idx int) {
 	if s.fail != nil || !s.alive {
 		return
 	}
+	// the mirror's own views: one (height, round, version) names one content, otherwise
+	// consumers that hold that version are never told about the difference
+	for _, v := range []*tmconsensus.VersionedRoundView{&s.vv, &s.cv} {
+		if v.Height == 0 {
+			continue
+		}
+		k := fmt.Sprintf("%d/%d/%d", v.Height, v.Round, v.Version)
+		c := digestVRVContent(v)
+		if old, ok := st.byVersion[k]; ok && old != c {
+			s.failf("", "content-changed-without-version", "the mirror's view %d/%d changed its content while its version stayed %d:\nbefore: %s\nafter:  %s", v.Height, v.Round, v.Version, trunc(old, 1000), trunc(c, 1000))
+			return
+		}
+		st.byVersion[k] = c
+	}
 	// the round left by a nil commit / full vote: its justification must reach gossip (when the reader is not stalled)
 	if st.prevVoting.H == s.vv.Height && s.vv.Round > st.prevVoting.R && st.prevVoting.H != 0 {
 		s.label("round-advanced")
 		if j := s.roundLeftJustification(st.prevVoting.H, st.prevVoting.R); j != "" {
-			if s.gsStalled {
-				// the single NilVotedRound slot is overwritten when the reader has not taken the previous one
-				for i := range st.pendingNil {
+			st.pendingNil = append(st.pendingNil, pendingNil{K: st.prevVoting, Why: j, Step: s.step, Fresh: true})
+		}
+		if s.gsStalled {
+			// the single NilVotedRound slot is overwritten by any later round advance
+			// while the reader has not taken the previous one
+			for i := range st.pendingNil {
+				if !st.pendingNil[i].Fresh {
 					st.pendingNil[i].Overwritten = true
 				}
 			}
-			st.pendingNil = append(st.pendingNil, pendingNil{K: st.prevVoting, Why: j, Step: s.step})
+		}
+		for i := range st.pendingNil {
+			st.pendingNil[i].Fresh = false
 		}
 	}
 	st.prevVoting = viewKey{s.vv.Height, s.vv.Round}
@@ -1063,9 +1084,11 @@ type pendingNil struct {
 	Why         string
 	Step        int
 	Overwritten bool
+	Fresh       bool
 }
 
 type c11State struct {
+	byVersion      map[string]string
 	gs, sm         map[viewKey]*viewTrack
 	gsSeen, smSeen int
 	nilVoted       []*tmconsensus.VersionedRoundView
@@ -1077,6 +1100,10 @@ type c11State struct {
 
 // roundLeftJustification: the votes stored for (h, r) that make leaving the round a nil commit / full vote ("" when it was a skip).
 func (s *sim) roundLeftJustification(h uint64, r uint32) string {
+	if s.futureStored[fmt.Sprintf("%d/%d", h, r)] {
+		// the store holds votes the live view never had (finding C10-F2): the store says nothing about why the round was left
+		return ""
+	}
 	_, _, pc, err := s.d.rs.LoadRoundState(context.Background(), h, r)
 	if err != nil {
 		return ""
@@ -1096,10 +1123,14 @@ func (s *sim) roundLeftJustification(h uint64, r uint32) string {
 			blockMajority = true
 		}
 	}
+	if blockMajority {
+		// (only with >= 1/3 double signers) the mirror waits for that block; it can only be skipped
+		return ""
+	}
 	if exceedsTwoThirds(nilPow, set.total()) {
 		return "nil precommit majority"
 	}
-	if !blockMajority && powerOf(set, union).Cmp(set.total()) == 0 {
+	if powerOf(set, union).Cmp(set.total()) == 0 {
 		return "all precommits present without a majority"
 	}
 	return ""
@@ -1158,17 +1189,18 @@ func c11Spec() propSpec {
 		prop: "C11", test: "TestVerifC11ConsumerViews",
 		rule: "histories of 4-45 ops against one real Mirror with explicit consumer schedules: both output channels are drained only when an op says so (stall / resume / read n), state machine entrances race with view shifts, honest macro rounds incl. nil rounds and partial votes, next-round votes that make the mirror skip, proposals, concurrent groups; per consumer and round: versions strictly increase, proposals and signer sets only grow, received values never change after receipt, a drained consumer holds the mirror's current view, and a round left by nil commit / full vote / skip is explained to the state machine (votes or jump-ahead) and to gossip (NilVotedRound); non-trivial = a view shift (commit or round change) happened while a consumer was stalled with an update pending; distinct = fingerprint of (config, op list)",
 		profile: genProfile{
-			w:              map[string]int{"ph": 3, "vote": 8, "round": 8, "sment": 4, "smact": 2, "stall": 4, "read": 4, "conc": 5},
+			w:              map[string]int{"ph": 3, "vote": 8, "round": 8, "sment": 4, "smact": 2, "stall": 4, "read": 4, "conc": 5, "replay": 3},
 			phVariants:     []int{phFresh, phFresh, phAltNext, phBadSig},
 			pcpVariants:    []int{pcpExact},
 			voteCorr:       []int{vcNone, vcNone, vcFlip},
-			replayVariants: []int{rvHonest},
+			replayVariants: []int{rvHonest, rvBadSig, rvBadSig, rvBelowQuorum, rvExtraNil},
 			minOps:         4, maxOps: 45,
 			dh: []int{0, 0, 0, 0, -1, 1}, dr: []int{0, 0, 0, 1, 1},
 			multiTarget: true,
 			nilRounds:   true,
 			concVoting:  true,
 		},
+		setup:  func(s *sim) { s.realCertificates = true },
 		oracle: c11Oracle,
 		final:  c11Final,
 		nontrivial: func(s *sim) bool { return s.labels["shift-while-stalled"] > 0 },
